@@ -1665,10 +1665,12 @@ class Alias(ObjectAliasMixin):
     def target(self, value: Object | Alias) -> None:
         if value is self or value.path == self.path:
             raise CyclicAliasError([self.target_path])
+        # Registering this alias in its (final) target can fail when the new target is an alias
+        # whose chain cannot be followed: do it first, so that this alias is left as it was in that case.
+        if self.parent is not None:
+            value.aliases[self.path] = self
         self._target = value
         self.target_path = value.path
-        if self.parent is not None:
-            self._target.aliases[self.path] = self
 
     @property
     def final_target(self) -> Object:
